@@ -2,7 +2,9 @@
   Model of the client-side cookie pool (net/ntske/fetcher.go: FetchData, StoreCookie — pool
   semantics only; the key exchange itself belongs to C20) and of one client exchange
   (core/client/client_ip.go: FetchData → NewRequestPacket → EncodePacket, and
-  DecodePacket → ProcessResponse → StoreCookie for every cookie of an authenticated response).
+  DecodePacket → ProcessResponse → StoreCookie for every cookie of an authenticated response),
+  and of the NTS stage of the clients' receive loop over the datagrams of one exchange
+  (core/client/client_ip.go measureClockOffsetIP, client_scion.go measureClockOffsetSCION).
 -/
 import ScionTime.Model.Nts
 namespace ScionTime.NtsPool
@@ -48,5 +50,49 @@ def response (A : AEAD) (st : Client) (b : Bytes) : Client × Res Unit :=
   match decodePacket b >>= fun d => processResponse A b st.s2c d st.reqId with
   | .ok cs => ({ st with pool := cs.foldl storeCookie st.pool }, .ok ())
   | .err e => (st, .err e) | .panic p => (st, .panic p) | .hang => (st, .hang)
+
+/-- `const maxNumRetries = 1` (client_ip.go and client_scion.go) -/
+def maxNumRetries : Nat := 1
+
+/-- The NTS stage of the receive loop of `measureClockOffsetIP` / `measureClockOffsetSCION`
+    (identical text in both):
+
+        for {
+          … read one datagram …
+          var ntsresp nts.Packet                       // declared inside the loop body
+          err = nts.DecodePacket(&ntsresp, buf)        // appends to ntsresp.Cookies while it walks
+          … err = nts.ProcessResponse(buf, ntskeData.S2cKey, &c.Auth.NTSKEFetcher, &ntsresp, requestID)
+          if err != nil { if numRetries != maxNumRetries && deadlineIsSet && Now().Before(deadline) { numRetries++; continue }; return err }
+          …
+        }
+
+    Every datagram is decoded into a packet value of its own, so one iteration is `response`
+    (whose `decodePacket` starts from the empty packet) and whatever `DecodePacket` collected
+    from a datagram it then refuses is gone with that iteration. `dgrams` = the payloads that
+    reach the NTS stage, in delivery order; the list ends where the deadline expires (read
+    error). `budget` = number of datagrams the loop may still look at: `maxNumRetries + 1` on
+    entry when the context carries a deadline (1 without). `.ok true`: a datagram passed
+    `ProcessResponse` — its cookies are in the pool, the loop goes on to the NTP checks with
+    it (C05's model) and reads nothing further when they pass; `.ok false`: the exchange fails
+    with the last error. -/
+def recvLoop (A : AEAD) : Nat → Client → List Bytes → Client × Res Bool
+  | 0, st, _ => (st, .ok false)
+  | _ + 1, st, [] => (st, .ok false)
+  | n + 1, st, b :: rest =>
+    match response A st b with
+    | (st', .ok _) => (st', .ok true)
+    | (st', .err _) => recvLoop A n st' rest
+    | (st', .panic p) => (st', .panic p)
+    | (st', .hang) => (st', .hang)
+
+/-- one whole exchange as far as NTS is concerned: request, then the receive loop with a
+    deadline. Result: the request on the wire and whether a datagram was authenticated. -/
+def exchange (A : AEAD) (st : Client) (hdr rnd : Bytes) (dgrams : List Bytes) : Client × Res (Bytes × Bool) :=
+  match request A st hdr rnd with
+  | (st1, .ok req) =>
+    match recvLoop A (maxNumRetries + 1) st1 dgrams with
+    | (st2, .ok acc) => (st2, .ok (req, acc))
+    | (st2, .err e) => (st2, .err e) | (st2, .panic p) => (st2, .panic p) | (st2, .hang) => (st2, .hang)
+  | (st1, .err e) => (st1, .err e) | (st1, .panic p) => (st1, .panic p) | (st1, .hang) => (st1, .hang)
 
 end ScionTime.NtsPool
